@@ -1000,15 +1000,19 @@ def pick_elem(ctx, toks, const_len):
             try:
                 if E.sizeof(c) == const_len: return None, c
             except Exception: pass
+    # symbolic length (or no whole-object match): the true copy unit is unknown in general (clang may have retyped an alloca, e.g.
+    # int[2] -> i64). Any unit that divides the true unit is semantically exact; take the SMALLEST non-byte unit among the
+    # origin types and the configured element types (a too-small unit only costs speed, a too-large one fails the length check).
+    opts = []
     for c in cands:
         e = element_of(E, c)
-        if e is not None and not (isinstance(E.resolve(e), IntTy) and E.resolve(e).bits == 8):
-            return e, None
+        if e is not None and not (isinstance(E.resolve(e), IntTy) and E.resolve(e).bits == 8): opts.append(e)
     for e in E.elems:
-        if const_len is None or const_len % E.sizeof(e) == 0: return e, None
-    if cands:
-        e = element_of(E, cands[0])
-        if e is not None: return e, None
+        if not (isinstance(E.resolve(e), IntTy) and E.resolve(e).bits == 8): opts.append(e)
+    if const_len is not None: opts = [e for e in opts if const_len % E.sizeof(e) == 0]
+    if opts:
+        opts.sort(key=lambda e: E.sizeof(e))
+        return opts[0], None
     return IntTy(8), None
 
 def const_of(expr):
